@@ -41,15 +41,16 @@ type Contract struct {
 	Modifies []string // raw location expressions; "heap" = everything
 	Loops    map[int]*LoopSpec
 	QLoops   map[string]*LoopSpec // loops of inlined helpers: "Helper.1" -> spec (names resolve in the helper's frame)
-	Flags    map[string]string // nopanic, maypanic, arith, pure, inline, atomic, root...
-	Params   []string          // for ext/type contracts: parameter names (positional binding)
+	Flags    map[string]string    // nopanic, maypanic, arith, pure, inline, atomic, root...
+	Params   []string             // for ext/type contracts: parameter names (positional binding)
 	Results  []string
 	File     string
 	Line     int
-	Assumed  bool // ext / type / iface contracts are assumptions
-	Lets     []*Clause // let name = expr (evaluated in pre-state)
-	Stable   []string  // locations assumed untouched by unknown calls (justified by an encapsulation rule)
+	Assumed  bool                 // ext / type / iface contracts are assumptions
+	Lets     []*Clause            // let name = expr (evaluated in pre-state)
+	Stable   []string             // locations assumed untouched by unknown calls (justified by an encapsulation rule)
 	OnCall   map[string][]*Clause // parameter name -> assertions that must hold whenever it is called
+	AtCall   map[string][]*Clause // callee name (funcKey, or its method name) -> assertions at each call of it
 }
 
 type GhostDecl struct {
@@ -87,22 +88,22 @@ type StructRule struct {
 }
 
 type ContractSet struct {
-	Funcs   map[string]*Contract // pkg + "::" + key
-	Types   map[string]*Contract // pkg + "::" + typename  (func types)
-	Ifaces  map[string]*Contract // pkg + "::" + Iface.Method
-	Ghosts  map[string]*GhostDecl
-	Globals []*GlobalInv
-	Lemmas  []*Lemma
-	Rules   []*StructRule
-	Specs   []string // raw SMT-LIB definitions (spec functions)
-	Blocks  []SpecBlock
-	Macros  map[string]SpecMacro
-	SpecSyms map[string]specSig
-	Templates map[string]*Contract // template name -> contract body
-	Families []*Family
+	Funcs      map[string]*Contract // pkg + "::" + key
+	Types      map[string]*Contract // pkg + "::" + typename  (func types)
+	Ifaces     map[string]*Contract // pkg + "::" + Iface.Method
+	Ghosts     map[string]*GhostDecl
+	Globals    []*GlobalInv
+	Lemmas     []*Lemma
+	Rules      []*StructRule
+	Specs      []string // raw SMT-LIB definitions (spec functions)
+	Blocks     []SpecBlock
+	Macros     map[string]SpecMacro
+	SpecSyms   map[string]specSig
+	Templates  map[string]*Contract // template name -> contract body
+	Families   []*Family
 	FieldFuncs map[string]string // pkg::Struct.field -> pkg::TypeContract
 	ModSets    map[string][]string
-	Guarded    map[string]string // pkg::Struct.field -> name of the mutex field in the same struct
+	Guarded    map[string]string  // pkg::Struct.field -> name of the mutex field in the same struct
 	ChanInvs   map[string]*Clause // pkg::Struct.field -> invariant over the values sent on that channel (variable v)
 }
 
@@ -140,7 +141,7 @@ var clauseKeywords = map[string]bool{
 	"prop": true, "requires": true, "ensures": true, "ensures_panic": true, "modifies": true,
 	"loop": true, "nopanic": true, "maypanic": true, "arith": true, "pure": true, "inline": true,
 	"flag": true, "params": true, "results": true, "let": true, "noinline": true, "havoc": true, "stable": true,
-	"oncall": true,
+	"oncall": true, "atcall": true,
 }
 
 var blockKeywords = map[string]bool{
@@ -382,6 +383,23 @@ func (cs *ContractSet) parseFile(path, pkg string, requirePrefix bool) error {
 				case "ensures_panic":
 					cur.EnsPanic = append(cur.EnsPanic, c)
 				}
+				curClause = c
+			case "atcall":
+				f := strings.Fields(rest)
+				if len(f) < 2 {
+					return fmt.Errorf("%s:%d: atcall CALLEE [label] EXPR", path, ln)
+				}
+				body := strings.TrimSpace(strings.TrimPrefix(rest, f[0]))
+				c := &Clause{Kind: "atcall", File: path, Line: ln}
+				if m := labelRe.FindStringSubmatch(body); m != nil {
+					c.Label = m[1]
+					body = body[len(m[0]):]
+				}
+				c.Text = body
+				if cur.AtCall == nil {
+					cur.AtCall = map[string][]*Clause{}
+				}
+				cur.AtCall[f[0]] = append(cur.AtCall[f[0]], c)
 				curClause = c
 			case "oncall":
 				f := strings.Fields(rest)
